@@ -143,10 +143,14 @@ struct Slot {
     current: Mutex<Option<(String, Value, Instant)>>,
     tid: AtomicU64,
     stuck: AtomicBool,
+    /// CPU time of the worker thread when `current` was last set (bits of an f64)
+    cpu0: AtomicU64,
 }
 
 /// "a few seconds of CPU" (C05 statement): a single call may not use more CPU time than this
 pub const CPU_SECONDS_PER_CALL: f64 = 3.0;
+/// a call (block of <= 64 announced calls) that has used this much CPU time and is still running is a hang
+pub const HANG_CPU_SECS: f64 = 15.0;
 
 /// CPU time consumed by the calling thread, in seconds
 pub fn thread_cpu_now() -> f64 {
@@ -203,7 +207,7 @@ pub fn run(ctx: &Ctx) {
     }
     let nthreads = std::env::var("RAYON_NUM_THREADS").ok().and_then(|s| s.parse().ok()).unwrap_or(16usize);
     let slots: Vec<Arc<Slot>> = (0..nthreads)
-        .map(|_| Arc::new(Slot { current: Mutex::new(None), tid: AtomicU64::new(0), stuck: AtomicBool::new(false) }))
+        .map(|_| Arc::new(Slot { current: Mutex::new(None), tid: AtomicU64::new(0), stuck: AtomicBool::new(false), cpu0: AtomicU64::new(0) }))
         .collect();
     let lat = lattice();
     let done = Arc::new(AtomicU64::new(0));
@@ -246,19 +250,15 @@ pub fn run(ctx: &Ctx) {
                     live += 1;
                     let el = t0.elapsed().as_secs_f64();
                     if el > hang_secs {
-                        // CPU-time confirmation: sample the thread's CPU clock over one second
+                        // decided on CPU time, not wall time (the machine may be oversubscribed): the thread's CPU
+                        // clock since the call (block of <= 64 calls) was announced
                         let tid = slot.tid.load(Ordering::Relaxed);
-                        let c0 = thread_cpu_secs(tid);
-                        std::thread::sleep(Duration::from_millis(1000));
-                        let c1 = thread_cpu_secs(tid);
+                        let used = thread_cpu_secs(tid).map(|c| c - f64::from_bits(slot.cpu0.load(Ordering::Relaxed)));
                         let still = slot.current.lock().unwrap().as_ref().map(|c| c.0 == desc).unwrap_or(false);
                         if !still {
                             continue;
                         }
-                        let busy = match (c0, c1) {
-                            (Some(a), Some(b)) => b - a > 0.5,
-                            _ => true,
-                        };
+                        let busy = used.map(|u| u > HANG_CPU_SECS).unwrap_or(el > 10.0 * hang_secs);
                         if busy {
                             slot.stuck.store(true, Ordering::Relaxed);
                             let cell: Option<Cell> = serde_json::from_value(case["cell"].clone()).ok();
@@ -268,11 +268,11 @@ pub fn run(ctx: &Ctx) {
                                 float: cell.as_ref().map(ft_name).unwrap_or_default(),
                                 symptom: "hang".into(),
                                 trigger: case["trigger"].as_str().unwrap_or("random").to_string(),
-                                what: format!("{desc}: one sample() call still running after {:.0} s with the thread busy on CPU", el),
+                                what: format!("{desc}: one sample() call still running after {:.0} s ({:.0} s of CPU time)", el, used.unwrap_or(f64::NAN)),
                                 case: case.clone(),
                             });
-                        } else {
-                            ctx.infra(format!("worker starved (no CPU progress) during {desc}"));
+                        } else if el > 1800.0 {
+                            ctx.infra(format!("worker starved ({:.0} s wall, {:.1} s CPU) during {desc}", el, used.unwrap_or(f64::NAN)));
                             slot.stuck.store(true, Ordering::Relaxed);
                         }
                     }
@@ -304,6 +304,7 @@ pub const ASSUME: [&str; 3] = [
 ];
 
 fn set_current(slot: &Slot, desc: String, case: Value) {
+    slot.cpu0.store(thread_cpu_now().to_bits(), Ordering::Relaxed);
     *slot.current.lock().unwrap() = Some((desc, case, Instant::now()));
 }
 
